@@ -15,10 +15,10 @@ PROFILES = {
     # weights / bounds per feature mask
     "full": dict(max_containers=9, max_depth=4, fanout=3, fields=(0, 4), kinds=("int", "int", "float", "enum", "bool",
                  "str", "bin", "time"), nested=0.35, ctx=0.3, dcal=0.3, dyn=0.5, desc=0.3, arbitrary_names=0.3,
-                 criteria_forms=("cmp", "list", "bool"), aligned=0.6),
+                 criteria_forms=("cmp", "list", "bool"), aligned=0.6, bare_base=0.08),
     "trees": dict(max_containers=12, max_depth=4, fanout=4, fields=(0, 3), kinds=("int", "int", "int", "enum", "bool",
                   "calint"), nested=0.5, ctx=0.0, dcal=0.0, dyn=0.0, desc=0.0, arbitrary_names=0.4,
-                  criteria_forms=("cmp", "list", "bool"), aligned=0.3, small_ints=True, deep=True),
+                  criteria_forms=("cmp", "list", "bool"), aligned=0.3, small_ints=True, deep=True, bare_base=0.08),
     "blobs": dict(max_containers=3, max_depth=2, fanout=2, fields=(1, 4), kinds=("str", "str", "bin", "lenint", "int"),
                   nested=0.15, ctx=0.0, dcal=0.2, dyn=0.75, desc=0.0, arbitrary_names=0.1,
                   criteria_forms=("cmp", "list"), aligned=0.5),
@@ -413,6 +413,8 @@ class Gen:
                 return
             name = self.fresh("C")
             match = self.gen_match(avail) if any(a.referable for a in avail) else None
+            if self.chance(self.p.get("bare_base", 0.0)):
+                match = None   # <BaseContainer containerRef=.../> without RestrictionCriteria: always a valid inheritor
             fs = self.fields(avail)
             entries = [["p", f.name] for f in fs]
             extra = []
